@@ -24,7 +24,7 @@ impl<'a> Tr<'a> {
         if cg.len() != f.const_generics.len() {
             return Err(unsupported(at, &format!("call of `{}` needs {} const generic argument(s) written with a turbofish", f.key, f.const_generics.len())));
         }
-        let mut a: Vec<String> = vec![];
+        let mut a: Vec<String> = self.mvar_args(&f.mvars, env, at)?;
         for (v, (_, t)) in cg.iter().zip(f.const_generics.iter()) {
             join(&v.ty, t).map_err(|m| unsupported(at, &m))?;
             a.push(v.s.clone());
@@ -127,7 +127,8 @@ impl<'a> Tr<'a> {
             if (n == "min" || n == "max") && args.len() == 2 {
                 return self.minmax(n, args[0], args[1], env, hint, at);
             }
-            if let Some(s) = self.t.struct_info(n) {
+            let rn = self.resolve_type_name(n);
+            if let Some(s) = self.t.struct_info(&rn) {
                 // tuple struct constructor
                 let s = s.clone();
                 if s.fields.len() != args.len() {
@@ -176,6 +177,22 @@ impl<'a> Tr<'a> {
             if fs.len() == 1 {
                 let cg = self.turbofish_consts(last, env, Some(&fs[0]))?;
                 return self.apply_fn(&fs[0], &cg, None, &args, env, at);
+            }
+        }
+        if let Some(x) = self.t.externs.get(&tn).cloned() {
+            let avs: Vec<Option<Val>> = args.iter().map(|a| self.pure(a, env, None).ok()).collect();
+            let cand = x.statics.iter().find(|c| {
+                c.0 == fname && c.1.len() == args.len() && c.1.iter().zip(avs.iter()).all(|(t, v)| v.as_ref().map(|v| join(&v.ty, t).is_ok()).unwrap_or(true))
+            });
+            if let Some((_, atys, rty, f)) = cand {
+                let mut a = self.extern_row(&x, env, at)?;
+                for (arg, t) in args.iter().zip(atys.iter()) {
+                    let v = self.pure(arg, env, Some(t))?;
+                    join(&v.ty, t).map_err(|m| unsupported(at, &m))?;
+                    a.push(v.s);
+                }
+                let rty = if *rty == Ty::Extern("Self".into()) { Ty::Extern(tn.clone()) } else { rty.clone() };
+                return Ok(Val { s: app(f, &a), ty: rty });
             }
         }
         // enum tuple variant constructor
@@ -285,8 +302,14 @@ impl<'a> Tr<'a> {
             Ty::Option(inner) => self.option_method(&name, recv, &inner, &args, env, hint, at),
             Ty::Extern(n) => {
                 let e = self.t.externs.get(&n).cloned().ok_or_else(|| unsupported(at, "unknown extern type"))?;
+                let ty_of = |t: &Ty| if *t == Ty::Extern("Self".into()) { Ty::Extern(n.clone()) } else { t.clone() };
                 match e.methods.iter().find(|m| m.0 == name) {
-                    Some((_, ty, f)) if args.is_empty() => Ok(Val { s: format!("({} {})", f, recv.s), ty: ty.clone() }),
+                    Some((_, ty, f)) if args.is_empty() => {
+                        let ty = &ty_of(ty);
+                        let mut a = self.extern_row(&e, env, at)?;
+                        a.push(recv.s.clone());
+                        Ok(Val { s: app(f, &a), ty: ty.clone() })
+                    }
                     _ => Err(unsupported(at, &format!("method `{}` on extern type `{}` (not listed in its `extern` line)", name, n))),
                 }
             }
@@ -307,6 +330,21 @@ impl<'a> Tr<'a> {
                         Ok(Val { s: format!("(negb (fst {r} {lt} snd {r}))", r = recv.s, lt = lt), ty: Ty::Bool })
                     }
                     _ => Err(unsupported(at, &format!("range method `{}`", name))),
+                }
+            }
+            Ty::Bool if name == "into" && args.is_empty() && matches!(hint, Some(Ty::Extern(_))) => {
+                let xn = match hint {
+                    Some(Ty::Extern(x)) => x.clone(),
+                    _ => unreachable!(),
+                };
+                let x = self.t.externs.get(&xn).cloned().ok_or_else(|| unsupported(at, "unknown extern type"))?;
+                match x.statics.iter().find(|c| c.0 == "from_bool") {
+                    Some((_, _, _, f)) => {
+                        let mut a = self.extern_row(&x, env, at)?;
+                        a.push(recv.s.clone());
+                        Ok(Val { s: app(f, &a), ty: Ty::Extern(xn) })
+                    }
+                    None => Err(unsupported(at, &format!("`bool.into()` to `{}` (no `fn:from_bool` member)", xn))),
                 }
             }
             Ty::Bool if name == "then_some" && args.len() == 1 => {
